@@ -53,7 +53,7 @@ def seeded():
         meta["how_run"] = "seeded/confirm_seed.sh %s (demo fails with / passes without the patch, existing tests of the touched packages pass) and seeded/run_seed.sh %s [checks] (scratch worktree of /repo + patch, VERIF_REPO=<worktree> ./vcheck <check> quick; exit 1 = caught)" % (s, s)
         json.dump(meta, open(mp, "w"), indent=1, ensure_ascii=False)
         out.append("| %s | %s | %s | %s | %s | %s |" % (s, meta.get("property", ""), one(meta.get("summary", ""), 230), one(meta.get("needs", ""), 200),
-                                                       ", ".join(caught) or "—", ", ".join(missed + [o + "(inconclusive)" for o in other]) or "—"))
+                                                       ", ".join(caught) or "—", (", ".join(missed + [o + "(inconclusive)" for o in other]) or "—") + ((" — " + one(meta["note"], 400)) if meta.get("note") else "")))
     out.append("")
     out.append("%d seeded changes, %d caught by at least one quick-tier check." % (len(seeds), ncaught))
     return "\n".join(out)
